@@ -5,6 +5,7 @@
   generated text (or leaves the translator's vocabulary) and the corresponding theorem stops checking.
 -/
 import MultiModel.Gen.StoreGen
+import MultiProofs.TieTactic
 
 namespace Multi.GenTieStore
 open Multi Multi.Gen
@@ -74,7 +75,7 @@ theorem SV_assign_copy_tie :
     SV_assign_copy ⟨b, d :: sub⟩ src m false = View.assign ⟨b, d :: sub⟩ src m ∧ SV_assign_copy ⟨b, d :: sub⟩ src m true = some m :=
   ⟨by simp [SV_assign_copy, View.assign], by simp [SV_assign_copy]⟩
 theorem SV_assign_other_tie : SV_assign_other ⟨b, d :: sub⟩ src m = View.assignT ⟨b, d :: sub⟩ src m := by
-  simp [SV_assign_other, View.assignT]
+  tie_simp [SV_assign_other, View.assignT]
 theorem SV_assign_rest_tie :
     SV_assign_other_rv ⟨b, d :: sub⟩ src m = View.assign ⟨b, d :: sub⟩ src m ∧
     SV_assign_from_rv ⟨b, d :: sub⟩ src m = View.assign ⟨b, d :: sub⟩ src m ∧
@@ -93,8 +94,8 @@ end views
 section cmp
 variable [DecidableEq α] (b : Int) (d : Dim) (sub : Layout) (o : View) (m : Mem α) (ltE : α → α → Bool)
 
-theorem V_eq_tie : V_eq ⟨b, d :: sub⟩ o m = View.eq ⟨b, d :: sub⟩ o m := by simp [V_eq, View.eq]
-theorem V_ne_tie : V_ne ⟨b, d :: sub⟩ o m = View.ne ⟨b, d :: sub⟩ o m := by simp [V_ne, View.ne]
+theorem V_eq_tie : V_eq ⟨b, d :: sub⟩ o m = View.eq ⟨b, d :: sub⟩ o m := by tie_simp [V_eq, View.eq]
+theorem V_ne_tie : V_ne ⟨b, d :: sub⟩ o m = View.ne ⟨b, d :: sub⟩ o m := by tie_simp [V_ne, View.ne]
 
 /-- D = 1: `extension() == other.extension()` is the one-dimensional `extensions() == other.extensions()` -/
 theorem V1_eq_tie (d' : Dim) (b' : Int) :
@@ -124,7 +125,7 @@ theorem V_lex_tie (d' : Dim) (sub' : Layout) (b' : Int) :
   exact ⟨key, key, key⟩
 
 theorem V_le_tie (d1 : Dim) : V_le ⟨b, d :: d1 :: sub⟩ o m ltE = View.le ltE ⟨b, d :: d1 :: sub⟩ o m := by
-  simp [V_le, View.le]
+  tie_simp [V_le, View.le]
 
 theorem V1_le_tie : V1_le ⟨b, [d]⟩ o m ltE = View.le ltE ⟨b, [d]⟩ o m ∧ V1_ge ⟨b, [d]⟩ o m ltE = View.ge ltE ⟨b, [d]⟩ o m := by
   constructor
